@@ -2,41 +2,89 @@
 thefittest) into state-passing Lean 4 definitions over TFV.Model.Imp, from /repo's CURRENT source.
 
 Run on every check of the properties whose kernels are listed in KERNELS; the regenerated files
-TFV/Generated/Src/<Kernel>.lean are then the subject of the equivalence theorems in
+TFV/Generated/Src/<kernel>.lean are then the subject of the equivalence theorems in
 TFV/Properties/Src/*.lean (`<Cxx>_src_<kernel>`): the hand-written model the property theorems are
 about equals what the source says now.  A construct outside the subset makes the translation fail
 ("not recognised"), which the check reports as a broken obligation.
 
-Subset: int / bool / int-array locals; assignment, augmented assignment, subscript assignment,
-tuple swaps; if / elif / else; `while`; `for` over range / np.arange; `break`; `return` at the end
-of the function or of every branch of a final if-chain; `raise`; calls of len, min, max, np.int64,
-.copy(), np.empty, np.arange, and of other translated kernels.
+What the generated definition means
+  * every local becomes a field of a state record `<kernel>.S`; statements are state transformers;
+  * `err` is set as soon as an array / list is read or written outside its bounds (or an empty stack
+    is popped / peeked, or a called kernel fails): the result is then `none`.  A theorem
+    `kernel args = some v` therefore also says that the kernel makes no out-of-range access on `args`;
+  * `raise` gives `none` as well;
+  * random draws are explicit parameters: `us` is the stream of `random.random()` results (as order
+    keys, only compared), `ns` the stream of integer draws (`np.random.randint(lo, hi)`,
+    `randint(lo, hi, 1)[0]`, `np.int64(np.floor(random.random() * x))`); `dry` is set when a stream
+    runs out, and the result is `none`;
+  * calls listed under `ext` are replaced by a parameter holding the call's result (the callee is
+    modelled by its contract in the theorem's hypotheses).
+
+Subset: int / bool / int-array / int-matrix values and list stacks; assignment, augmented assignment,
+subscript assignment, tuple swaps; if / elif / else; `while` (with break / continue); `for` over
+range / np.arange / a suffix slice of an array (with break); `return` at the end of the function or of
+every branch of a final if-chain; `raise`; `assert`; calls of len, min, max, int, sorted, np.int64,
+np.array, .copy(), .append(), .pop(), np.empty, np.empty_like, np.arange, np.zeros, flip_coin and of
+other translated kernels.
 """
 from __future__ import annotations
 
 import ast
 import sys
-import textwrap
 from pathlib import Path
 
+U = "utils/__init__.py"
 KERNELS = [
     dict(name="get_n_jobs", file="base/_ea.py", cls="EvolutionaryAlgorithm", func="_get_n_jobs",
-         params=[("n_jobs", "Int")], self_attrs={"_pop_size": "pop_size"}, ext_calls={"cpu_count": "cpu"}, ret="Int", fuel=None),
-    dict(name="binary_search_interval", file="utils/__init__.py", func="binary_search_interval",
+         params=[("n_jobs", "Int")], self_attrs={"_pop_size": ("pop_size", "Int")}, ext={"cpu_count": ("cpu", "Int")}, ret="Int"),
+    dict(name="binary_search_interval", file=U, func="binary_search_interval",
          params=[("value", "Int"), ("intervals", "Arr")], ret="Int", fuel="intervals.length + 1"),
-    dict(name="check_for_value", file="utils/__init__.py", func="check_for_value",
-         params=[("value", "Int"), ("index_array", "Arr"), ("end", "Int")], ret="Bool", fuel=None),
-    dict(name="find_end_subtree_from_i", file="utils/__init__.py", func="find_end_subtree_from_i",
+    dict(name="check_for_value", file=U, func="check_for_value",
+         params=[("value", "Int"), ("index_array", "Arr"), ("end", "Int")], ret="Bool"),
+    dict(name="find_end_subtree_from_i", file=U, func="find_end_subtree_from_i",
          params=[("index", "Int"), ("n_args_array", "Arr")], ret="Int", fuel="n_args_array.length + 1"),
-    dict(name="find_id_args_from_i", file="utils/__init__.py", func="find_id_args_from_i",
-         params=[("index", "Int"), ("n_args_array", "Arr")], ret="Arr", fuel=None, uses=["find_end_subtree_from_i"]),
-    dict(name="find_first_difference_between_two", file="utils/__init__.py", func="find_first_difference_between_two",
-         params=[("array_1", "Arr"), ("array_2", "Arr")], ret="Int", fuel=None),
-    dict(name="argsort_k", file="utils/__init__.py", func="argsort_k",
-         params=[("array", "Arr"), ("k", "Int")], ret="Arr", fuel=None),
+    dict(name="find_id_args_from_i", file=U, func="find_id_args_from_i",
+         params=[("index", "Int"), ("n_args_array", "Arr")], ret="Arr", uses=["find_end_subtree_from_i"]),
+    dict(name="find_first_difference_between_two", file=U, func="find_first_difference_between_two",
+         params=[("array_1", "Arr"), ("array_2", "Arr")], ret="Int"),
+    dict(name="argsort_k", file=U, func="argsort_k",
+         params=[("array", "Arr"), ("k", "Int")], ret="Arr"),
     dict(name="bounds_control", file="optimizers/_differentialevolution.py", func="bounds_control",
-         params=[("array", "Arr"), ("left", "Arr"), ("right", "Arr")], ret="Arr", fuel=None),
+         params=[("array", "Arr"), ("left", "Arr"), ("right", "Arr")], ret="Arr"),
+    # ---- second batch: list stacks, draw streams, matrices
+    dict(name="get_levels_tree_from_i", file=U, func="get_levels_tree_from_i",
+         params=[("origin", "Int"), ("n_args_array", "Arr")], ret="Arr"),
+    dict(name="flip_mutation", file="utils/mutations.py", func="flip_mutation",
+         params=[("individual", "Arr"), ("proba", "Int")], ret="Arr", streams=True),
+    dict(name="binomialGA", file="utils/crossovers.py", func="binomialGA",
+         params=[("individ", "Arr"), ("mutant", "Arr"), ("CR", "Int")], ret="Arr", streams=True),
+    dict(name="binomial", file="utils/crossovers.py", func="binomial",
+         params=[("individ", "Arr"), ("mutant", "Arr"), ("CR", "Int")], ret="Arr", streams=True),
+    dict(name="one_point_crossover", file="utils/crossovers.py", func="one_point_crossover",
+         params=[("individs", "Mat"), ("fitness", "Arr"), ("rank", "Arr")], ret="Arr", streams=True,
+         ext={"random_sample": ("sampled", "Arr")}),
+    dict(name="two_point_crossover", file="utils/crossovers.py", func="two_point_crossover",
+         params=[("individs", "Mat"), ("fitness", "Arr"), ("rank", "Arr")], ret="Arr", streams=True,
+         ext={"random_sample": ("sampled", "Arr")}),
+    dict(name="uniform_crossover", file="utils/crossovers.py", func="uniform_crossover",
+         params=[("individs", "Mat"), ("fitness", "Arr"), ("rank", "Arr")], ret="Arr", streams=True,
+         ext={"random_sample": ("sampled", "Arr")}),
+    dict(name="sattolo_shuffle", file="utils/random.py", func="sattolo_shuffle",
+         params=[("arr", "Arr")], ret="Arr", streams=True),
+    dict(name="random_sample", file="utils/random.py", func="random_sample",
+         params=[("range_size", "Int"), ("quantity", "Int"), ("replace", "Bool")], ret="Arr", streams=True,
+         fuel="ns.length + 1", uses=["check_for_value"]),
+    dict(name="random_weighted_sample", file="utils/random.py", func="random_weighted_sample",
+         params=[("weights", "Arr"), ("quantity", "Int"), ("replace", "Bool")], ret="Arr", streams=True,
+         fuel="rolls.length + 1", uses=["check_for_value", "binary_search_interval"],
+         # the two float expressions of the kernel are parameters: the cumulative sums (np.cumsum) and the
+         # stream of rolls `sumweights * random.random()`; `roll == 0.0 and sumweights > 0.0` is `roll = 0 ∧ 0 < sum`
+         ext={"np.cumsum": ("cumsumweights_ext", "Arr")}, roll_stream=True),
 ]
+
+LTY = {"Int": "Int", "Arr": "List Int", "Bool": "Bool", "Mat": "List (List Int)"}
+DEFAULT = {"Int": "0", "Arr": "[]", "Bool": "false", "Mat": "[]"}
+RESERVED = ("end", "at", "from", "to", "in", "do", "then", "fun", "match", "with", "open", "by", "s", "us", "ns", "fuel", "rolls", "max", "min", "hi0")
 
 
 class NotRecognised(Exception):
@@ -54,25 +102,87 @@ def find_func(tree, cls, func):
     raise NotRecognised(f"function {cls + '.' if cls else ''}{func} not found")
 
 
+def is_np(f, *names):
+    return isinstance(f, ast.Attribute) and isinstance(f.value, ast.Name) and f.value.id in ("np", "numpy") and f.attr in names
+
+
+def callname(f):
+    if isinstance(f, ast.Name):
+        return f.id
+    if isinstance(f, ast.Attribute) and isinstance(f.value, ast.Name):
+        return f"{f.value.id}.{f.attr}"
+    if isinstance(f, ast.Attribute) and isinstance(f.value, ast.Attribute) and isinstance(f.value.value, ast.Name):
+        return f"{f.value.value.id}.{f.value.attr}.{f.attr}"
+    return None
+
+
+def bor(*xs):
+    xs = [x for x in xs if x and x != "false"]
+    if not xs:
+        return "false"
+    return xs[0] if len(xs) == 1 else "(" + " || ".join(xs) + ")"
+
+
 class Tr:
     def __init__(self, fn: ast.FunctionDef, cfg: dict):
         self.fn, self.cfg = fn, cfg
         self.params = dict(cfg["params"])
         self.self_attrs = cfg.get("self_attrs", {})
-        self.ext_calls = cfg.get("ext_calls", {})
+        self.ext = cfg.get("ext", {})
         self.uses = cfg.get("uses", [])
+        self.streams = bool(cfg.get("streams"))
+        self.roll_stream = bool(cfg.get("roll_stream"))
         self.locals: dict[str, str] = {}
+        self.ntmp = 0
+        self.tmps: dict[str, str] = {}
+        self.keyconsts: dict[str, float] = {}
+        self.used_streams: set = set()
         self.collect(fn.body)
 
-    # ---- locals and their types
-    def is_arr_expr(self, e):
+    # ---- names
+    @staticmethod
+    def id(name):
+        return name + "'" if name in RESERVED else name
+
+    def tmp(self, ty):
+        n = f"t{self.ntmp}"
+        self.ntmp += 1
+        self.tmps[n] = ty
+        return n
+
+    # ---- types
+    def ty(self, e) -> str:
+        if isinstance(e, ast.Constant):
+            return "Bool" if isinstance(e.value, bool) else "Int"
+        if isinstance(e, ast.Name):
+            t = self.locals.get(e.id) or self.params.get(e.id)
+            if t is None:
+                raise NotRecognised(f"unknown name {e.id}")
+            return t
+        if isinstance(e, (ast.Compare, ast.BoolOp)) or (isinstance(e, ast.UnaryOp) and isinstance(e.op, ast.Not)):
+            return "Bool"
+        if isinstance(e, ast.List):
+            return "Arr"
+        if isinstance(e, ast.Subscript):
+            if isinstance(e.slice, ast.Slice):
+                return "Arr"
+            return {"Mat": "Arr", "Arr": "Int"}.get(self.ty(e.value), "Int")
         if isinstance(e, ast.Call):
             f = e.func
+            nm = callname(f)
             if isinstance(f, ast.Attribute) and f.attr == "copy":
-                return True
-            if isinstance(f, ast.Attribute) and isinstance(f.value, ast.Name) and f.value.id in ("np", "numpy") and f.attr in ("empty", "arange", "zeros"):
-                return True
-        return False
+                return self.ty(f.value)
+            if is_np(f, "empty", "arange", "zeros", "empty_like", "array", "cumsum"):
+                return "Arr"
+            if nm == "sorted":
+                return "Arr"
+            if nm == "flip_coin":
+                return "Bool"
+            if nm in self.ext:
+                return self.ext[nm][1]
+            if nm in self.uses:
+                return KERNEL_BY_NAME[nm]["ret"]
+        return "Int"
 
     def setlocal(self, name, ty):
         if name in self.params:
@@ -87,8 +197,7 @@ class Tr:
             if isinstance(st, ast.Assign):
                 for t in st.targets:
                     if isinstance(t, ast.Name):
-                        ty = "Arr" if self.is_arr_expr(st.value) else ("Bool" if isinstance(st.value, ast.Constant) and isinstance(st.value.value, bool) else "Int")
-                        self.setlocal(t.id, ty)
+                        self.setlocal(t.id, self.ty(st.value))
                     elif isinstance(t, ast.Tuple):
                         for el in t.elts:
                             if isinstance(el, ast.Name):
@@ -104,28 +213,136 @@ class Tr:
                     raise NotRecognised("for-else")
             elif isinstance(st, ast.While):
                 self.collect(st.body)
+                if st.orelse:
+                    raise NotRecognised("while-else")
             elif isinstance(st, ast.If):
                 self.collect(st.body)
                 self.collect(st.orelse)
 
-    # ---- expressions
-    def ty(self, e) -> str:
-        if isinstance(e, ast.Constant):
-            return "Bool" if isinstance(e.value, bool) else "Int"
-        if isinstance(e, ast.Name):
-            return self.locals.get(e.id) or self.params.get(e.id) or "Int"
-        if isinstance(e, (ast.Compare, ast.BoolOp)) or (isinstance(e, ast.UnaryOp) and isinstance(e.op, ast.Not)):
-            return "Bool"
-        if self.is_arr_expr(e):
-            return "Arr"
-        return "Int"
+    # ---- effects hoisted out of an expression, in evaluation order: draws, pops, kernel calls.
+    #      Returns (lines, rewritten-expression-environment): sub-expressions are replaced by `s.tN`.
+    def hoist(self, e, lines, env, guarded=False):
+        """walk `e` in evaluation order; effectful sub-expressions get a temporary"""
+        if isinstance(e, ast.BoolOp):
+            self.hoist(e.values[0], lines, env, guarded)
+            for v in e.values[1:]:
+                self.hoist(v, lines, env, True)
+            return
+        if isinstance(e, ast.IfExp):
+            raise NotRecognised("conditional expression")
+        if self.is_randint1(e):
+            for a in e.value.args[:2]:
+                self.hoist(a, lines, env, guarded)
+            if guarded:
+                raise NotRecognised(f"effectful call {ast.unparse(e)} under a short-circuit operator")
+            if not self.streams:
+                raise NotRecognised("random draw in a kernel without streams")
+            t = self.tmp("Int")
+            self.used_streams.add("ns")
+            lines.append(f"{{ s with {t} := Imp.geti ns s.kn, dry := s.dry || decide (ns.length ≤ s.kn), kn := s.kn + 1 }}")
+            env[id(e)] = f"s.{t}"
+            return
+        if isinstance(e, ast.Call):
+            nm = callname(e.func)
+            kind = self.effect_kind(e)
+            if kind == "scaled":
+                # np.int64(np.floor(random.random() * X)): the arguments of the inner product are walked, not the draw
+                inner = e.args[0].args[0]
+                other = inner.right if self.is_rr(inner.left) else inner.left
+                self.hoist(other, lines, env, guarded)
+            elif isinstance(e.func, ast.Attribute) and not is_np(e.func, *NP_FUNCS) and nm not in ("random.random", "np.random.randint"):
+                self.hoist(e.func.value, lines, env, guarded)
+                for a in e.args:
+                    self.hoist(a, lines, env, guarded)
+            else:
+                for a in e.args:
+                    self.hoist(a, lines, env, guarded)
+                for k in e.keywords:
+                    self.hoist(k.value, lines, env, guarded)
+            if kind is None:
+                return
+            if guarded:
+                raise NotRecognised(f"effectful call {ast.unparse(e)} under a short-circuit operator")
+            if kind in ("u", "coin"):
+                if not self.streams:
+                    raise NotRecognised("random draw in a kernel without streams")
+                t = self.tmp("Int")
+                self.used_streams.add("us")
+                lines.append(f"{{ s with {t} := Imp.geti us s.ku, dry := s.dry || decide (us.length ≤ s.ku), ku := s.ku + 1 }}")
+                env[id(e)] = f"s.{t}" if kind == "u" else f"(decide (s.{t} < {self.E(e.args[0], env)}))"
+            elif kind in ("n", "scaled"):
+                if not self.streams:
+                    raise NotRecognised("random draw in a kernel without streams")
+                t = self.tmp("Int")
+                self.used_streams.add("ns")
+                lines.append(f"{{ s with {t} := Imp.geti ns s.kn, dry := s.dry || decide (ns.length ≤ s.kn), kn := s.kn + 1 }}")
+                env[id(e)] = f"s.{t}"
+            elif kind == "roll":
+                t = self.tmp("Int")
+                lines.append(f"{{ s with {t} := Imp.geti rolls s.kr, dry := s.dry || decide (rolls.length ≤ s.kr), kr := s.kr + 1 }}")
+                env[id(e)] = f"s.{t}"
+            elif kind == "pop":
+                a = self.id(e.func.value.id)
+                t = self.tmp("Int")
+                lines.append(f"{{ s with {t} := Imp.last s.{a}, err := s.err || s.{a}.isEmpty, {a} := s.{a}.dropLast }}")
+                env[id(e)] = f"s.{t}"
+            elif kind == "kernel":
+                ret = KERNEL_BY_NAME[nm]["ret"]
+                t = self.tmp(ret)
+                args = " ".join(self.E(a, env) for a in e.args)
+                lines.append(f"(match {nm} {args} with | some v => {{ s with {t} := v }} | none => {{ s with err := true }})")
+                env[id(e)] = f"s.{t}"
+            return
+        for c in ast.iter_child_nodes(e):
+            if isinstance(c, ast.expr):
+                self.hoist(c, lines, env, guarded)
 
-    def E(self, e) -> str:
+    @staticmethod
+    def is_randint1(e):
+        """randint(lo, hi, 1)[0]"""
+        return (isinstance(e, ast.Subscript) and isinstance(e.slice, ast.Constant) and e.slice.value == 0 and isinstance(e.value, ast.Call)
+                and callname(e.value.func) == "randint" and len(e.value.args) == 3 and isinstance(e.value.args[2], ast.Constant) and e.value.args[2].value == 1)
+
+    @staticmethod
+    def is_rr(e):
+        return isinstance(e, ast.Call) and callname(e.func) == "random.random" and not e.args
+
+    def effect_kind(self, e: ast.Call):
+        nm = callname(e.func)
+        if self.roll_stream and isinstance(e, ast.Call) and False:
+            return None
+        if nm == "random.random" and not e.args:
+            return "u"
+        if nm == "flip_coin" and len(e.args) == 1:
+            return "coin"
+        if nm == "np.random.randint" and len(e.args) == 2:
+            return "n"
+        if is_np(e.func, "int64") and len(e.args) == 1 and isinstance(e.args[0], ast.Call) and is_np(e.args[0].func, "floor") \
+                and isinstance(e.args[0].args[0], ast.BinOp) and isinstance(e.args[0].args[0].op, ast.Mult) \
+                and (self.is_rr(e.args[0].args[0].left) or self.is_rr(e.args[0].args[0].right)):
+            return "scaled"
+        if isinstance(e.func, ast.Attribute) and e.func.attr == "pop" and not e.args and isinstance(e.func.value, ast.Name) and e.func.value.id in self.locals:
+            return "pop"
+        if nm in self.uses:
+            return "kernel"
+        return None
+
+    # ---- expressions (pure, after hoisting)
+    def E(self, e, env) -> str:
+        if id(e) in env:
+            return env[id(e)]
         if isinstance(e, ast.Constant):
             if isinstance(e.value, bool):
                 return "true" if e.value else "false"
             if isinstance(e.value, int):
                 return f"({e.value} : Int)"
+            if isinstance(e.value, float) and e.value == int(e.value):
+                return f"({int(e.value)} : Int)"
+            if isinstance(e.value, float):
+                # a float literal is only compared: it becomes a parameter holding its order key
+                n = "key_" + repr(e.value).replace(".", "_").replace("-", "m")
+                self.keyconsts[n] = e.value
+                return n
             raise NotRecognised(f"constant {e.value!r}")
         if isinstance(e, ast.Name):
             if e.id in self.locals:
@@ -133,12 +350,18 @@ class Tr:
             if e.id in self.params:
                 return self.id(e.id)
             raise NotRecognised(f"unknown name {e.id}")
+        if isinstance(e, ast.List):
+            return "[" + ", ".join(self.E(x, env) for x in e.elts) + "]"
         if isinstance(e, ast.Attribute):
             if isinstance(e.value, ast.Name) and e.value.id == "self" and e.attr in self.self_attrs:
-                return self.self_attrs[e.attr]
+                return self.self_attrs[e.attr][0]
+            if e.attr == "size" and self.ty(e.value) == "Arr":
+                return f"(Imp.leni {self.E(e.value, env)})"
             raise NotRecognised(f"attribute {ast.unparse(e)}")
         if isinstance(e, ast.BinOp):
-            a, b = self.E(e.left), self.E(e.right)
+            if self.roll_stream and isinstance(e.op, ast.Mult) and (self.is_rr(e.left) or self.is_rr(e.right)):
+                raise NotRecognised("roll expression outside an assignment")
+            a, b = self.E(e.left, env), self.E(e.right, env)
             if isinstance(e.op, ast.Add):
                 return f"({a} + {b})"
             if isinstance(e.op, ast.Sub):
@@ -152,9 +375,9 @@ class Tr:
             raise NotRecognised(f"operator {type(e.op).__name__}")
         if isinstance(e, ast.UnaryOp):
             if isinstance(e.op, ast.USub):
-                return f"(- {self.E(e.operand)})"
+                return f"(- {self.E(e.operand, env)})"
             if isinstance(e.op, ast.Not):
-                return f"(! {self.B(e.operand)})"
+                return f"(! {self.B(e.operand, env)})"
             raise NotRecognised("unary operator")
         if isinstance(e, ast.Compare):
             parts, left = [], e.left
@@ -162,119 +385,270 @@ class Tr:
                 sym = {ast.Lt: "<", ast.LtE: "≤", ast.Gt: ">", ast.GtE: "≥", ast.Eq: "=", ast.NotEq: "≠"}.get(type(op))
                 if sym is None:
                     raise NotRecognised("comparison operator")
-                if self.ty(left) == "Bool" or self.ty(right) == "Bool":
-                    raise NotRecognised("comparison of booleans")
-                parts.append(f"decide ({self.E(left)} {sym} {self.E(right)})")
+                if self.ty(left) != "Int" or self.ty(right) != "Int":
+                    raise NotRecognised("comparison of non-integers")
+                parts.append(f"decide ({self.E(left, env)} {sym} {self.E(right, env)})")
                 left = right
             return "(" + " && ".join(parts) + ")"
         if isinstance(e, ast.BoolOp):
             sym = " && " if isinstance(e.op, ast.And) else " || "
-            return "(" + sym.join(self.B(v) for v in e.values) + ")"
+            return "(" + sym.join(self.B(v, env) for v in e.values) + ")"
         if isinstance(e, ast.Subscript):
             if isinstance(e.slice, ast.Slice):
-                raise NotRecognised("slice")
-            return f"(Imp.geti {self.E(e.value)} {self.E(e.slice)})"
+                raise NotRecognised("slice outside a for loop")
+            vt = self.ty(e.value)
+            if isinstance(e.slice, ast.UnaryOp) and isinstance(e.slice.op, ast.USub) and isinstance(e.slice.operand, ast.Constant) and e.slice.operand.value == 1 and vt == "Arr":
+                return f"(Imp.last {self.E(e.value, env)})"
+            if vt == "Mat":
+                return f"(Imp.getrow {self.E(e.value, env)} {self.E(e.slice, env)})"
+            if vt == "Arr":
+                return f"(Imp.geti {self.E(e.value, env)} {self.E(e.slice, env)})"
+            raise NotRecognised(f"subscript of a {vt}")
         if isinstance(e, ast.Call):
             f = e.func
             args = e.args
+            nm = callname(f)
+            if nm in self.ext:
+                return self.ext[nm][0]
             if isinstance(f, ast.Name):
                 if f.id == "len" and len(args) == 1:
-                    return f"(Imp.leni {self.E(args[0])})"
+                    t = self.ty(args[0])
+                    if t == "Mat":
+                        return f"(({self.E(args[0], env)}).length : Int)"
+                    return f"(Imp.leni {self.E(args[0], env)})"
                 if f.id in ("min", "max") and len(args) == 2:
-                    return f"({f.id} {self.E(args[0])} {self.E(args[1])})"
-                if f.id in ("int",) and len(args) == 1:
-                    return self.E(args[0])
-                if f.id in self.ext_calls and not args:
-                    return self.ext_calls[f.id]
-                if f.id in self.uses:
-                    return f"(({f.id} " + " ".join(self.E(a) for a in args) + ").getD 0)"
+                    return f"({f.id} {self.E(args[0], env)} {self.E(args[1], env)})"
+                if f.id == "int" and len(args) == 1:
+                    return self.E(args[0], env)
+                if f.id == "sorted" and len(args) == 1:
+                    return f"(Imp.sorted {self.E(args[0], env)})"
                 raise NotRecognised(f"call of {f.id}")
-            if isinstance(f, ast.Attribute) and isinstance(f.value, ast.Name) and f.value.id in ("np", "numpy") and f.attr in ("int64",) and len(args) == 1:
-                return self.E(args[0])
+            if is_np(f, "int64") and len(args) == 1:
+                return self.E(args[0], env)
+            if is_np(f, "array") and len(args) == 1:
+                return self.E(args[0], env)
             if isinstance(f, ast.Attribute) and f.attr == "copy" and not args:
-                return self.E(f.value)
-            if isinstance(f, ast.Attribute) and isinstance(f.value, ast.Name) and f.value.id in ("np", "numpy") and f.attr == "empty":
-                return f"(List.replicate ({self.E(args[0])}).toNat (0 : Int))"
-            if isinstance(f, ast.Attribute) and isinstance(f.value, ast.Name) and f.value.id in ("np", "numpy") and f.attr == "arange" and len(args) == 1:
-                return f"((List.range ({self.E(args[0])}).toNat).map Int.ofNat)"
+                return self.E(f.value, env)
+            if is_np(f, "empty", "zeros") and len(args) >= 1:
+                return f"(List.replicate ({self.E(args[0], env)}).toNat (0 : Int))"
+            if is_np(f, "empty_like") and len(args) == 1:
+                return f"(List.replicate ({self.E(args[0], env)}).length (0 : Int))"
+            if is_np(f, "arange") and len(args) == 1:
+                return f"((List.range ({self.E(args[0], env)}).toNat).map Int.ofNat)"
             raise NotRecognised(f"call {ast.unparse(e)}")
         raise NotRecognised(f"expression {ast.unparse(e)}")
 
-    def B(self, e) -> str:
-        return self.E(e) if self.ty(e) == "Bool" else f"(Imp.truthy {self.E(e)})"
+    def B(self, e, env) -> str:
+        return self.E(e, env) if self.ty(e) == "Bool" else f"(Imp.truthy {self.E(e, env)})"
 
-    @staticmethod
-    def id(name):
-        return name + "'" if name in ("end", "at", "from", "to", "in", "do", "then", "fun", "match", "with", "open", "by") else name
+    def shape(self, e, env):
+        """`m.shape[k]` of a matrix parameter"""
+        if isinstance(e, ast.Subscript) and isinstance(e.value, ast.Attribute) and e.value.attr == "shape" and isinstance(e.slice, ast.Constant):
+            m = self.E(e.value.value, env)
+            if self.ty(e.value.value) != "Mat":
+                raise NotRecognised("shape of a non-matrix")
+            return f"(({m}).length : Int)" if e.slice.value == 0 else f"(Imp.leni (Imp.getrow {m} (0 : Int)))"
+        return None
 
-    # ---- statements: each returns a Lean expression in the state variable `s`
-    def rng(self, it):
+    # ---- out-of-range condition of evaluating `e` (a Lean Bool expression over the state)
+    def oob(self, e, env) -> str:
+        if id(e) in env and not isinstance(e, ast.Call):
+            return "false"
+        if isinstance(e, ast.BoolOp):
+            vals = e.values
+            acc = self.oob(vals[-1], env)
+            for v in reversed(vals[:-1]):
+                cond = self.B(v, env)
+                if acc != "false":
+                    acc = bor(self.oob(v, env), f"({cond} && {acc})" if isinstance(e.op, ast.And) else f"(!{cond} && {acc})")
+                else:
+                    acc = self.oob(v, env)
+            return acc
+        if isinstance(e, ast.Subscript) and not isinstance(e.slice, ast.Slice):
+            sh = None
+            if isinstance(e.value, ast.Attribute) and e.value.attr == "shape":
+                return "false"
+            vt = self.ty(e.value)
+            a = self.E(e.value, env)
+            inner = bor(self.oob(e.value, env), self.oob(e.slice, env))
+            if isinstance(e.slice, ast.UnaryOp) and isinstance(e.slice.op, ast.USub):
+                return bor(inner, f"({a}).isEmpty")
+            i = self.E(e.slice, env)
+            return bor(inner, f"(! Imp.inbM {a} {i})" if vt == "Mat" else f"(! Imp.inb {a} {i})")
+        if isinstance(e, ast.Call) and id(e) in env:
+            # a hoisted call: its arguments were evaluated before; their reads are checked where the call was hoisted
+            return "false"
+        return bor(*[self.oob(c, env) for c in ast.iter_child_nodes(e) if isinstance(c, ast.expr)])
+
+    def Ex(self, e, env):
+        sh = self.shape(e, env)
+        return sh if sh is not None else self.E(e, env)
+
+    # ---- statements: each returns a list of Lean expressions in the state variable `s`
+    def rng(self, it, env):
         """(lo, hi) of a `range` / `np.arange` iteration"""
         if isinstance(it, ast.Call):
-            f = it.func
-            nm = f.id if isinstance(f, ast.Name) else (f.attr if isinstance(f, ast.Attribute) else None)
-            if nm in ("range", "arange"):
+            nm = callname(it.func)
+            if nm in ("range", "np.arange"):
                 a = it.args
                 if len(a) == 1:
-                    return "(0 : Int)", self.E(a[0])
+                    return "(0 : Int)", self.Ex(a[0], env)
                 if len(a) == 2:
-                    return self.E(a[0]), self.E(a[1])
+                    return self.Ex(a[0], env), self.Ex(a[1], env)
+                if len(a) == 3 and isinstance(a[2], ast.UnaryOp) and isinstance(a[2].op, ast.USub) and isinstance(a[2].operand, ast.Constant) and a[2].operand.value == 1:
+                    return ("down", self.Ex(a[0], env), self.Ex(a[1], env))
         raise NotRecognised(f"iteration over {ast.unparse(it)}")
 
-    def stmt(self, st, ind) -> str:
+    def pre(self, exprs, lines):
+        """hoist effects of the expressions (in order) and record their out-of-range condition"""
+        env = {}
+        for e in exprs:
+            self.hoist(e, lines, env)
+        cond = bor(*[self.oob(e, env) for e in exprs])
+        if cond != "false":
+            lines.append(f"{{ s with err := s.err || {cond} }}")
+        return env
+
+    def stmt(self, st, ind) -> list:
         pad = "  " * ind
+        L: list = []
         if isinstance(st, ast.Expr) and isinstance(st.value, ast.Constant):
-            return "s"
+            return []
+        if isinstance(st, ast.Assert):
+            return []          # an assertion states a precondition; it is a hypothesis of the theorems, not behaviour
+        if isinstance(st, ast.Expr) and isinstance(st.value, ast.Call):
+            c = st.value
+            if isinstance(c.func, ast.Attribute) and isinstance(c.func.value, ast.Name) and c.func.value.id in self.locals and self.locals[c.func.value.id] == "Arr":
+                a = self.id(c.func.value.id)
+                if c.func.attr == "append" and len(c.args) == 1:
+                    env = self.pre([c.args[0]], L)
+                    L.append(f"{{ s with {a} := s.{a} ++ [{self.E(c.args[0], env)}] }}")
+                    return L
+                if c.func.attr == "pop" and not c.args:
+                    L.append(f"{{ s with err := s.err || s.{a}.isEmpty, {a} := s.{a}.dropLast }}")
+                    return L
+            raise NotRecognised(f"expression statement {ast.unparse(st)}")
         if isinstance(st, ast.Assign):
             if len(st.targets) != 1:
                 raise NotRecognised("chained assignment")
             t = st.targets[0]
+            if self.roll_stream and isinstance(st.value, ast.BinOp) and isinstance(st.value.op, ast.Mult) and (self.is_rr(st.value.left) or self.is_rr(st.value.right)) and isinstance(t, ast.Name):
+                # roll = sumweights * random.random(): the next element of the stream of rolls
+                tt = self.id(t.id)
+                L.append(f"{{ s with {tt} := Imp.geti rolls s.kr, dry := s.dry || decide (rolls.length ≤ s.kr), kr := s.kr + 1 }}")
+                return L
             if isinstance(t, ast.Name):
-                return f"{{ s with {self.id(t.id)} := {self.E(st.value)} }}"
-            if isinstance(t, ast.Subscript) and isinstance(t.value, ast.Name) and t.value.id in self.locals:
+                env = self.pre([st.value], L)
+                L.append(f"{{ s with {self.id(t.id)} := {self.Ex(st.value, env)} }}")
+                return L
+            if isinstance(t, ast.Subscript) and isinstance(t.value, ast.Name) and t.value.id in self.locals and self.locals[t.value.id] == "Arr":
                 a = self.id(t.value.id)
-                return f"{{ s with {a} := Imp.seti s.{a} {self.E(t.slice)} {self.E(st.value)} }}"
+                env = self.pre([st.value, t.slice], L)
+                if isinstance(t.slice, ast.UnaryOp) and isinstance(t.slice.op, ast.USub) and isinstance(t.slice.operand, ast.Constant) and t.slice.operand.value == 1:
+                    L.append(f"{{ s with err := s.err || s.{a}.isEmpty, {a} := Imp.setlast s.{a} {self.E(st.value, env)} }}")
+                else:
+                    i = self.E(t.slice, env)
+                    L.append(f"{{ s with err := s.err || (! Imp.inb s.{a} {i}), {a} := Imp.seti s.{a} {i} {self.E(st.value, env)} }}")
+                return L
             if isinstance(t, ast.Tuple) and isinstance(st.value, ast.Tuple) and len(t.elts) == len(st.value.elts):
                 # evaluate the whole right-hand side first, then assign left to right
-                lets = [f"let v{k} := {self.E(v)}" for k, v in enumerate(st.value.elts)]
-                cur = "s"
+                env = self.pre(list(st.value.elts) + [el.slice for el in t.elts if isinstance(el, ast.Subscript)], L)
+                lets = [f"let v{k} := {self.E(v, env)}" for k, v in enumerate(st.value.elts)]
+                cur, errs = "s", []
                 for k, el in enumerate(t.elts):
                     if isinstance(el, ast.Subscript) and isinstance(el.value, ast.Name) and el.value.id in self.locals:
                         a = self.id(el.value.id)
-                        idx = self.E(el.slice).replace("s.", "s0.")
+                        idx = self.E(el.slice, env).replace("s.", "s0.")
+                        errs.append(f"(! Imp.inb s0.{a} {idx})")
                         cur = f"{{ {cur} with {a} := Imp.seti ({cur}).{a} {idx} v{k} }}"
                     elif isinstance(el, ast.Name):
                         cur = f"{{ {cur} with {self.id(el.id)} := v{k} }}"
                     else:
                         raise NotRecognised("tuple target")
-                return "(let s0 := s; " + "; ".join(lets) + "; " + cur + ")"
+                if errs:
+                    L.append("(let s0 := s; { s with err := s.err || " + " || ".join(errs) + " })")
+                L.append("(let s0 := s; " + "; ".join(lets) + "; " + cur + ")")
+                return L
             raise NotRecognised(f"assignment target {ast.unparse(t)}")
         if isinstance(st, ast.AugAssign) and isinstance(st.target, ast.Name):
             op = {ast.Add: "+", ast.Sub: "-", ast.Mult: "*"}.get(type(st.op))
             if op is None:
                 raise NotRecognised("augmented operator")
             n = self.id(st.target.id)
-            return f"{{ s with {n} := s.{n} {op} {self.E(st.value)} }}"
+            env = self.pre([st.value], L)
+            L.append(f"{{ s with {n} := s.{n} {op} {self.E(st.value, env)} }}")
+            return L
         if isinstance(st, ast.If):
-            return f"(if {self.B(st.test)} then\n{self.block(st.body, ind + 1)}\n{pad}else\n{self.block(st.orelse, ind + 1)})"
+            env = self.pre([st.test], L)
+            L.append(f"(if {self.B(st.test, env)} then\n{self.block(st.body, ind + 1)}\n{pad}else\n{self.block(st.orelse, ind + 1)})")
+            return L
         if isinstance(st, ast.While):
             if self.cfg.get("fuel") is None:
                 raise NotRecognised("while loop without a fuel expression in the kernel table")
-            return f"(Imp.whileN fuel (fun s => {self.B(st.test)}) (fun s =>\n{self.block(st.body, ind + 1)}) s)"
+            tmp = []
+            env = {}
+            self.hoist(st.test, tmp, env)
+            if tmp:
+                raise NotRecognised("effectful while condition")
+            ob = self.oob(st.test, env)
+            head = f"{pad}  let s := {{ s with cnt := false" + (f", err := s.err || {ob}" if ob != "false" else "") + " }\n"
+            L.append(f"(Imp.whileN fuel (fun s => (! s.brk) && {self.B(st.test, env)}) (fun s =>\n{head}{self.block(st.body, ind + 1)}) s)")
+            L.append("{ s with brk := false, cnt := false" + (f", err := s.err || {ob}" if ob != "false" else "") + " }")
+            return L
         if isinstance(st, ast.For):
-            lo, hi = self.rng(st.iter)
             v = self.id(st.target.id)
             body = self.block(st.body, ind + 1)
-            return (f"({{ (Imp.forRange {lo} {hi} (fun s => s.brk) (fun i s =>\n{pad}  let s := {{ s with {v} := i }}\n{body}) s) with brk := false }})")
+            it = st.iter
+            if isinstance(it, ast.Subscript) and isinstance(it.slice, ast.Slice) and it.slice.upper is None and it.slice.step is None and self.ty(it.value) == "Arr":
+                # for x in a[lo:]  (only over a parameter: the body cannot change what is iterated)
+                if not (isinstance(it.value, ast.Name) and it.value.id in self.params):
+                    raise NotRecognised("iteration over a slice of a local array")
+                env = self.pre([it.slice.lower] if it.slice.lower is not None else [], L)
+                a = self.E(it.value, env)
+                lo = self.E(it.slice.lower, env) if it.slice.lower is not None else "(0 : Int)"
+                L.append(f"{{ s with err := s.err || decide ({lo} < 0) }}")
+                L.append(f"(Imp.forRange {lo} (Imp.leni {a}) (fun s => s.brk) (fun i s =>\n{pad}  let s := {{ s with {v} := Imp.geti {a} i }}\n{body}) s)")
+                L.append("{ s with brk := false }")
+                return L
+            r = self.rng(it, {})
+            if r[0] == "down":
+                env = self.pre(list(it.args[:2]), L)
+                _, hi, lo = self.rng(it, env)
+                # range(hi, lo, -1): hi, hi-1, ..., lo+1
+                L.append(f"(let hi0 := {hi}; Imp.forRange (0 : Int) (hi0 - {lo}) (fun s => s.brk) (fun i s =>\n{pad}  let s := {{ s with {v} := hi0 - i }}\n{body}) s)")
+            else:
+                env = self.pre(list(it.args), L)
+                lo, hi = self.rng(it, env)
+                L.append(f"(Imp.forRange {lo} {hi} (fun s => s.brk) (fun i s =>\n{pad}  let s := {{ s with {v} := i }}\n{body}) s)")
+            L.append("{ s with brk := false }")
+            return L
         if isinstance(st, ast.Break):
-            return "{ s with brk := true }"
+            return ["{ s with brk := true }"]
+        if isinstance(st, ast.Continue):
+            return ["{ s with cnt := true }"]
         if isinstance(st, ast.Pass):
-            return "s"
+            return []
         raise NotRecognised(f"statement {type(st).__name__}")
+
+    @staticmethod
+    def may_exit(st) -> bool:
+        """does the statement contain a break / continue of the enclosing loop?"""
+        if isinstance(st, (ast.Break, ast.Continue)):
+            return True
+        if isinstance(st, ast.If):
+            return any(Tr.may_exit(x) for x in st.body + st.orelse)
+        return False
 
     def block(self, stmts, ind) -> str:
         pad = "  " * ind
-        lines = [f"{pad}let s := {self.stmt(st, ind)}" for st in stmts]
+        lines = []
+        for k, st in enumerate(stmts):
+            for ln in self.stmt(st, ind):
+                lines.append(f"{pad}let s := {ln}")
+            rest = stmts[k + 1:]
+            if self.may_exit(st) and rest:
+                lines.append(f"{pad}let s := (if s.brk || s.cnt then s else\n{self.block(rest, ind + 1)})")
+                break
         lines.append(f"{pad}s")
         return "\n".join(lines)
 
@@ -284,14 +658,26 @@ class Tr:
         if not stmts:
             raise NotRecognised("function may fall off its end")
         *pre, last = stmts
-        lines = [f"{pad}let s := {self.stmt(st, ind)}" for st in pre]
+        lines = []
+        for st in pre:
+            if self.may_exit(st):
+                raise NotRecognised("break / continue outside a loop")
+            for ln in self.stmt(st, ind):
+                lines.append(f"{pad}let s := {ln}")
         if isinstance(last, ast.Return):
-            val = self.E(last.value) if self.ty(last.value) != "Bool" or self.cfg["ret"] == "Bool" else self.E(last.value)
-            lines.append(f"{pad}some ({val})")
+            L = []
+            env = self.pre([last.value], L)
+            for ln in L:
+                lines.append(f"{pad}let s := {ln}")
+            lines.append(f"{pad}if s.err || s.dry then none else some ({self.E(last.value, env)})")
         elif isinstance(last, ast.Raise):
             lines.append(f"{pad}none")
         elif isinstance(last, ast.If):
-            lines.append(f"{pad}if {self.B(last.test)} then\n{self.ret(last.body, ind + 1)}\n{pad}else\n{self.ret(last.orelse, ind + 1)}")
+            L = []
+            env = self.pre([last.test], L)
+            for ln in L:
+                lines.append(f"{pad}let s := {ln}")
+            lines.append(f"{pad}if {self.B(last.test, env)} then\n{self.ret(last.body, ind + 1)}\n{pad}else\n{self.ret(last.orelse, ind + 1)}")
         else:
             raise NotRecognised("function does not end in return / raise")
         return "\n".join(lines)
@@ -299,20 +685,32 @@ class Tr:
     def render(self) -> str:
         cfg = self.cfg
         name = cfg["name"]
-        lty = {"Int": "Int", "Arr": "List Int", "Bool": "Bool"}
-        fields = "".join(f"  {self.id(n)} : {lty[t]} := {'0' if t == 'Int' else ('[]' if t == 'Arr' else 'false')}\n" for n, t in sorted(self.locals.items()))
-        params = " ".join(f"({self.id(n)} : {lty[t]})" for n, t in cfg["params"])
-        extra = " ".join(f"({v} : Int)" for v in list(self.self_attrs.values()) + list(self.ext_calls.values()))
-        imports = "".join(f"import TFV.Generated.Src.{u}\n" for u in self.uses)
-        opens = ""
         body = self.ret([st for st in self.fn.body], 1)
+        allf = {**{self.id(n): t for n, t in self.locals.items()}, **self.tmps}
+        fields = "".join(f"  {n} : {LTY[t]} := {DEFAULT[t]}\n" for n, t in sorted(allf.items()))
+        params = " ".join(f"({self.id(n)} : {LTY[t]})" for n, t in cfg["params"])
+        extra = " ".join(f"({v} : {LTY[t]})" for v, t in list(self.self_attrs.values()) + list(self.ext.values()))
+        extra += "".join(f" ({n} : Int)" for n in sorted(self.keyconsts))
+        if self.streams:
+            if "us" in self.used_streams:
+                extra += " (us : List Int)"
+            if "ns" in self.used_streams:
+                extra += " (ns : List Int)"
+        if self.roll_stream:
+            extra += " (rolls : List Int)"
+        imports = "".join(f"import TFV.Generated.Src.{u}\n" for u in self.uses)
         fuel = f"  let fuel : Nat := {cfg['fuel']}\n" if cfg.get("fuel") else ""
         return (f"/- GENERATED by harness/extract/py2lean.py from /repo/src/thefittest/{cfg['file']} ({(cfg.get('cls') + '.') if cfg.get('cls') else ''}{cfg['func']})\n"
                 f"   on every run of the checks that depend on it. Do not edit. -/\n"
-                f"import TFV.Model.Imp\n{imports}\nnamespace TFV.Generated.Src\nopen TFV\n{opens}\n"
-                f"structure {name}.S where\n{fields}  brk : Bool := false\n\n"
-                f"def {name} {params} {extra} : Option ({lty[cfg['ret']]}) :=\n"
+                f"import TFV.Model.Imp\n{imports}\nset_option linter.unusedVariables false\n\nnamespace TFV.Generated.Src\nopen TFV\n\n"
+                f"structure {name}.S where\n{fields}  brk : Bool := false\n  cnt : Bool := false\n  err : Bool := false\n  dry : Bool := false\n"
+                f"  ku : Nat := 0\n  kn : Nat := 0\n  kr : Nat := 0\n\n"
+                f"def {name} {params} {extra} : Option ({LTY[cfg['ret']]}) :=\n"
                 f"  let s : {name}.S := {{}}\n{fuel}{body}\n\nend TFV.Generated.Src\n")
+
+
+NP_FUNCS = ("int64", "floor", "array", "empty", "zeros", "empty_like", "arange", "cumsum")
+KERNEL_BY_NAME = {k["name"]: k for k in KERNELS}
 
 
 def translate(repo: Path, cfg: dict) -> str:
